@@ -256,7 +256,9 @@ pub unsafe fn step(w: &mut World, op: &FOp) -> Result<(), String> {
             } else {
                 let got = take_header_map(ret);
                 let input: Vec<Header> = clean.iter().map(|(n, v)| Header { name: n.clone(), value: v.clone() }).collect();
-                let exp: Vec<(String, String)> = w.act_twin[s].as_mut().unwrap().filter_headers(input, *code, *add_ids, None).into_iter().map(|h| (h.name, h.value)).collect();
+                // a string with an interior NUL cannot be handed over as a C string: NULL (read as "") stands for it
+                let c_side = |s: String| if s.contains('\0') { String::new() } else { s };
+                let exp: Vec<(String, String)> = w.act_twin[s].as_mut().unwrap().filter_headers(input, *code, *add_ids, None).into_iter().map(|h| (c_side(h.name), c_side(h.value))).collect();
                 if sorted(got.clone()) != sorted(exp.clone()) {
                     return Err(format!("header_filter_filter: headers {:?}, native gives {:?} (as multisets)", got, exp));
                 }
@@ -599,6 +601,9 @@ pub fn strategy(with_tp: bool) -> BoxedStrategy<Case> {
         let a = Action::from_routes_rule(c05::routes_of(&c.rules), &req, None);
         serde_json::to_string(&a).unwrap()
     });
+    // one action in eight carries a string with an interior NUL (JSON can, a C string cannot): the library has to answer
+    // NULL for that string - and must survive reporting it through the log callback
+    let action_json = (action_json, 0u8..8).prop_map(|(j, k)| if k == 0 { j.replacen("\"value\":\"v-", "\"value\":\"a\\u0000b-", 1) } else { j });
     let request_json = crate::gen::router_case_strategy(crate::gen::RuleOpts::MATCH_ONLY, 1, 1, 1).prop_map(|rc| serde_json::to_string(&rc.requests[0].build(&rc.config.to_lib())).unwrap());
     let slot = 0u8..2;
     let code = pick(vec![0u16, 200, 301, 404, 500]);
